@@ -941,8 +941,9 @@ def units(tier: str, vseed: int) -> list:
         for i in range(n):
             out.append({"layer": layer, "start": i * per, "count": per, "vseed": vseed, "tier": tier})
     # interleave layers so that a wall-clock cap still leaves every layer covered
-    out.sort(key=lambda u: (u["start"] // u["count"], u["layer"]))
-    return out
+    from .runner import interleave
+
+    return interleave(out, lambda u: u["layer"])
 
 
 def run_unit(unit: dict):
